@@ -1,7 +1,7 @@
 ---------------------------- MODULE MC_CsvFormat ----------------------------
 EXTENDS CsvFormat
 ActsV == {"Buy", "Sell", "RoC", "SfLA", "Split"}
-AfsV == {"default", "default (R)", "spouse", "spouse (R)", "global"}
+AfsV == {"default", "default (R)", "spouse", "spouse (R)", "default spouse", "global"}
 DecClassesV == {"int", "zeros", "long", "tiny"}
 MemoClassesV == {"empty", "plain", "tricky"}
 \* quick configuration: one decimal / memo class (they do not interact with the column structure)
